@@ -67,6 +67,30 @@ CLAIMED = {
         "technique": "Coq proof (history invariant over the refinement relation) + exact history-mode differential correspondence",
         "design": "DESIGN.md section 7 C09",
     },
+    "C12": {
+        "text": "Coq theorems about a model of sb_trajectory_init_from_rth_plan_entry over the builder model (scale selection, seconds->milliseconds conversions, hold / neck / leg / post-delay phases, binary32 modelled bit-exactly): the generated bytes decode and last exactly the sum of the four phases in whole milliseconds, a landing entry has no leg, unknown actions fail, the scale is in 1..127 and (for binary32 coordinates) the smallest that holds the start point. Tied to the code by exact differential runs (generated bytes and total duration identical) plus an oracle from the property: probes along every leg within one quantum (+ millisecond quantisation of the phase boundaries) of the ideal piecewise-linear path.",
+        "note": "Trusted: Coq kernel; hand-written model; Base/F32.v rounding model (validated bit-for-bit by C20's primitive-operation cases; its error/monotonicity theorems are in Properties_C20); path-within-quantum is checked by the oracle on every run, not proved; extraction; harness. No axioms.",
+        "technique": "Coq proof (phase durations through the builder round trip) + bit-exact differential correspondence + property oracle on probes",
+        "design": "DESIGN.md section 7 C12",
+    },
+    "C16": {
+        "text": "Coq theorems about a bit-exact model of builder.c: init gives a decodable empty builder; every successful append-line / hold keeps the bytes decodable and adds exactly the requested duration (the halving recursion above 60 s loses nothing, never runs out of fuel for 32-bit durations); a call fails exactly when a coordinate is not representable (set-start also after the first segment) and a failing call returns no new state; a stored coordinate is within one quantum (plus binary32 rounding of the division) of the requested one. Tied to the code by exact differential runs: result code and buffer size after every call of every sequence up to length 4 over an 8-letter alphabet and long random sequences, finished trajectory bytes, final builder bytes; plus the property oracle (passes within one quantum of each requested point at its cumulative time).",
+        "note": "Trusted: Coq kernel; hand-written model following the repaired code (validation before any write); Base/F32.v; 'straight line in between' is implied by the decoded linear segments (C01) and checked by probes, not separately proved; extraction; harness. No axioms.",
+        "technique": "Coq proof (builder output decodes, duration additivity by induction on the halving recursion) + bit-exact differential correspondence",
+        "design": "DESIGN.md section 7 C16",
+    },
+    "C18": {
+        "text": "Coq theorems over the reals: the polynomial built from 1..8 Bezier control points and a duration evaluates to the de Casteljau curve at u/duration; derivative / scale / stretch / add-constant laws for every length; hodograph; the executable rational instance agrees with the real one; the factorial table regenerated from poly.c is the factorials. Root finding (degree <= 3, libm-based in the code): the certificates used as the oracle are proved sound over the reals (interval Horner enclosure, exclusion by bisection, every real root inside the Cauchy bound lies in a reported box, a sign change certifies a root, extrema enclosures; closed forms for degree <= 2), so each run's verdicts are per-instance theorems. Tied to the code by differential runs within float evaluation bounds and against the certificates.",
+        "note": "Trusted: Coq kernel; standard-library real-number axioms (sig_forall_dec, sig_not_dec, functional_extensionality_dep, classic); float evaluation bounds and root tolerances are assumed/calibrated, cubic root claims are per instance (certificate), not for all inputs; known finding D13 (extrema of degree > 3 unset). Extraction; harness.",
+        "technique": "Coq proof over R (field identities, Coquelicot derivatives, verified interval/bisection certificates) + differential correspondence",
+        "design": "DESIGN.md section 7 C18",
+    },
+    "C20": {
+        "text": "Coq theorems: the binary32 rounding model used throughout (error <= 2^-24 relative, monotone, exact on integers up to 2^24); travel time: invalid -> infinity, zero distance, infinite acceleration, the cruise/triangular profile identities, regimes meet at v^2/a, monotone in distance; scale update raises the scale to exactly the smallest sufficient value (binary32 coordinates) or reports overflow above 127; seconds->milliseconds within 1 ms (+ rounding) or invalid/overflow; interval expansion never inverts; colour interpolation hits both end points and stays between them; RGBW min-subtraction / fixed / reference laws; the byte buffer refines a list (contents survive growth, size <= capacity, views neither grow nor shrink). Tied to the code by BIT-EXACT differential runs of every primitive float operation, all utilities on boundary grids, colour grids and buffer operation sequences.",
+        "note": "Trusted: Coq kernel; hand-written models (bit-exact on binary32 in the normal range; subnormal/overflowing results are not generated); sb_rgb_color_from_color_temperature (powf/logf) is not modelled; x86-64 SSE arithmetic without contraction; extraction; harness. No axioms.",
+        "technique": "Coq proof (rounding-model lemmas, algebraic identities over Q, list refinement) + bit-exact differential correspondence",
+        "design": "DESIGN.md section 7 C20",
+    },
 }
 NOT_YET = "check not built yet in this session (planned: Coq model + theorems + correspondence, see DESIGN.md section 7)"
 
